@@ -573,58 +573,115 @@ Definition ERRORS_SLASH : bytes := Eval vm_compute in B "errors/".
 Definition TEMPLATES_SLASH : bytes := Eval vm_compute in B "templates/".
 Definition tree_read (tree : PathSan.node) (p : bytes) : option bytes :=
   PathSan.read_path (tree, []) (tree, []) p.
-Definition fs_of_tree (tree : PathSan.node) (t : bytes) : option bytes := tree_read tree (PUBLIC_SLASH ++ t).
 
+(** what the server reads, over a reader [rd] of paths relative to the host directory:
+    [read_file(make_path(host.path, "public", t))], [error::default]: [make_path(host.path, "errors", code, Some("html"))]
+    or the hard-coded page (written [ERRPAGE:<code>]), and [templates::Cache::resolve_template]: the files
+    [make_path(host.path, "templates", arg, None)] named by the arguments, last argument first; the first one that can be
+    read and defines the name *)
+Definition fs_of (rd : bytes -> option bytes) (t : bytes) : option bytes := rd (PUBLIC_SLASH ++ t).
 Definition ERRPAGE_COLON : bytes := Eval vm_compute in B "ERRPAGE:".
 Definition errpage_fix (code : N) : bytes := ERRPAGE_COLON ++ dec code.
-(** [utils::make_path(host.path, "errors", code, Some("html"))] *)
-Definition errpage_of_tree (tree : PathSan.node) (code : N) : bytes :=
-  match tree_read tree (ERRORS_SLASH ++ dec code ++ B ".html") with
+Definition errpage_of (rd : bytes -> option bytes) (code : N) : bytes :=
+  match rd (ERRORS_SLASH ++ dec code ++ B ".html") with
   | Some c => c
   | None => errpage_fix code
   end.
-
-(** [templates::Cache::resolve_template]: the files named by the arguments, last argument first; the first
-    one that can be read and defines the name.  [make_path(host.path, "templates", arg, None)]. *)
-Fixpoint resolve_template (tree : PathSan.node) (files : list bytes) (name : bytes) : outcome (option bytes) :=
+Fixpoint resolve_template (rd : bytes -> option bytes) (files : list bytes) (name : bytes) : outcome (option bytes) :=
   match files with
   | [] => Ok None
   | f :: rest =>
-      match tree_read tree (TEMPLATES_SLASH ++ f) with
+      match rd (TEMPLATES_SLASH ++ f) with
       | Some content =>
           obind (Templates.extract_templates false content) (fun m =>
           match Templates.t_get name m with
           | Some t => Ok (Some t)
-          | None => resolve_template tree rest name
+          | None => resolve_template rd rest name
           end)
-      | None => resolve_template tree rest name
+      | None => resolve_template rd rest name
       end
   end.
 Definition TMPL_PANIC : bytes := Eval vm_compute in B "<<template engine panicked>>".
-Definition tmpl_of_tree (tree : PathSan.node) (args : list bytes) (body : bytes) : bytes :=
-  match Templates.handle_template (resolve_template tree (rev args)) body with
+Definition tmpl_of (rd : bytes -> option bytes) (args : list bytes) (body : bytes) : bytes :=
+  match Templates.handle_template (resolve_template rd (rev args)) body with
   | Ok b => b
   | _ => TMPL_PANIC       (* never: Proofs/TemplatesProofs.v *)
   end.
+Definition fs_of_tree (tree : PathSan.node) : bytes -> option bytes := fs_of (tree_read tree).
+Definition errpage_of_tree (tree : PathSan.node) : N -> bytes := errpage_of (tree_read tree).
+Definition tmpl_of_tree (tree : PathSan.node) : list bytes -> bytes -> bytes := tmpl_of (tree_read tree).
+
+(** ---------------------------------------------------------------------------
+    The file cache ([host.file_cache], src/read.rs): a map from the path text to the content or to "no such
+    file" (negative entry).  [read::file] (public files) consults it and never fills it; [read::file_cached]
+    (error pages, template files) consults it and stores what it read from the disk.  What the server holds for a
+    path is the entry if there is one — also a stale or a negative one — and the disk otherwise. *)
+Definition fcache := list (bytes * option bytes).
+Fixpoint fc_find (p : bytes) (fc : fcache) : option (option bytes) :=
+  match fc with
+  | [] => None
+  | (q, v) :: r => if beq p q then Some v else fc_find p r
+  end.
+Definition fc_view (on : bool) (disk : bytes -> option bytes) (fc : fcache) (p : bytes) : option bytes :=
+  if on then match fc_find p fc with Some v => v | None => disk p end else disk p.
+Definition fc_fill1 (on : bool) (disk : bytes -> option bytes) (fc : fcache) (p : bytes) : fcache :=
+  if on then match fc_find p fc with Some _ => fc | None => (p, disk p) :: fc end else fc.
+Definition fc_fill (on : bool) (disk : bytes -> option bytes) (fc : fcache) (ps : list bytes) : fcache :=
+  fold_left (fc_fill1 on disk) ps fc.
+
+(** the server with its file cache as state: every read sees [fc_view] of the current cache; [reads] names the paths
+    a request reads through [file_cached] (ANY choice: the theorem [file_cache_transparent] does not depend on it).
+    The 406 page of the negotiation is read in [handle_cache] itself. *)
+Definition compute_gf (fix_ext fix_lock fix_errline cors on : bool) (disk : bytes -> option bytes)
+    (reads : request -> option (bytes * option bytes) -> bool -> list bytes)
+    (fc : fcache) (r : request) (ov : option (bytes * option bytes)) (ok : bool) : fatx * fcache * list bytes :=
+  let rd := fc_view on disk fc in
+  (plain (layer_b fix_ext fix_lock fix_errline cors (fs_of rd) (errpage_of rd) (tmpl_of rd) r ov ok),
+   fc_fill on disk fc (reads r ov ok), []).
+Definition run_gf (fix_ext fix_lock fix_errline cors on : bool) (disk : bytes -> option bytes)
+    (reads : request -> option (bytes * option bytes) -> bool -> list bytes) (fc0 : fcache)
+    (cache_on ims_on fix_ovkey fix_clear fix_svary fix_qmkey fix_ims : bool) (sfilter : N -> bool)
+    (parse_ims : bytes -> option Z) (prime : request -> request)
+    (override : request -> option (bytes * option bytes))
+    (refuses : request -> fatx -> bool) (vary_tuple : request -> option (bytes * option bytes) -> tuple)
+    (vary_header : request -> option (bytes * option bytes) -> fatx -> list (bytes * bytes))
+    (clear_alias : request -> option request)
+    (c : cachex) (now : N) (ops : list opx) : list obsx :=
+  runX fcache (compute_gf fix_ext fix_lock fix_errline cors on disk reads) cache_on ims_on true fix_ovkey fix_clear fix_svary
+       fix_qmkey fix_ims sfilter parse_ims sanitize_ok_g prime override
+       (negotiate_g (errpage_of (fc_view on disk fc0)) refuses) vary_tuple vary_header clear_alias (c, fc0) now ops.
 
 Record gconfig := mkG {
   g_cache : bool; g_default_ext : bool; g_ims : bool; g_files : list (bytes * bytes);
-  g_vary : list (bytes * list vrule); g_report : list bytes; g_phase : N }.
+  g_vary : list (bytes * list vrule); g_report : list bytes; g_phase : N;
+  g_fcache : bool; g_fseed : fcache }.     (* file cache on?; what it holds before the first request *)
 
+Definition d_fseed (x : xval) : option (bytes * option bytes) :=
+  match x with
+  | XL [XB p; XL []] => Some (p, None)
+  | XL [XB p; XL [XB c]] => Some (p, Some c)
+  | _ => None
+  end.
 Definition d_gconfig (x : xval) : option gconfig :=
   match x with
   | XL l =>
       let fl := match kv_get (B "files") l with Some v => d_list d_pair_bb v | None => Some [] end in
       let vr := match kv_get (B "vary") l with Some v => d_list d_varyrule v | None => Some [] end in
       let rp := match kv_get (B "report") l with Some v => d_list d_B v | None => Some [] end in
+      let sd := match kv_get (B "fcache_seed") l with Some v => d_list d_fseed v | None => Some [] end in
       let ph := match kv_get (B "phase") l with Some (XN n) => n | _ => 500 end in
-      match fl, vr, rp with
-      | Some fl', Some vr', Some rp' =>
-          Some (mkG (kv_flag (B "cache") l true) (kv_flag (B "default_ext") l false) (negb (kv_flag (B "disable_ims") l false)) fl' vr' rp' ph)
-      | _, _, _ => None
+      match fl, vr, rp, sd with
+      | Some fl', Some vr', Some rp', Some sd' =>
+          Some (mkG (kv_flag (B "cache") l true) (kv_flag (B "default_ext") l false) (negb (kv_flag (B "disable_ims") l false)) fl' vr' rp' ph
+                    (kv_flag (B "fcache") l true) sd')
+      | _, _, _, _ => None
       end
   | _ => None
   end.
+(** what the server holds for a path of the scenario: the seeded file-cache entry (file cache on), else the fixture tree.
+    ([MokaCache::insert] replaces: of several seeds for one path the last one counts.) *)
+Definition g_held (g : gconfig) : bytes -> option bytes :=
+  fc_view (g_fcache g) (tree_read (tree_of (g_files g))) (rev (g_fseed g)).
 
 (** the client address of an operation: [(N n)] (n < 65536), [(L (N 4) (N v))], [(L (N 6) (N v))] *)
 Definition d_addr (x : xval) : option N :=
@@ -651,8 +708,8 @@ Definition g_prime (g : gconfig) : request -> request :=
   if g_default_ext g then uri_redirect else (fun r => r).
 
 Definition run_gcfg (fix_ext fix_lock fix_errline : bool) (g : gconfig) (ops : list opx) : list obsx :=
-  let tree := tree_of (g_files g) in
-  run_g fix_ext fix_lock fix_errline (g_default_ext g) (fs_of_tree tree) (errpage_of_tree tree) (tmpl_of_tree tree)
+  let held := g_held g in
+  run_g fix_ext fix_lock fix_errline (g_default_ext g) (fs_of held) (errpage_of held) (tmpl_of held)
         (g_cache g) (g_ims g) true true true true true status_filter_drop parse_ims_fix
         (g_prime g) (override_x (g_default_ext g) None) (fun _ _ => false)
         (vary_tuple_x true (g_vary g)) (vary_header_x true (g_vary g)) clear_alias_fix [] (g_phase g) ops.
@@ -690,7 +747,7 @@ Definition run_guards_spec (x : xval) : xval :=
   | XL [c; XL ops] =>
       match d_gconfig c, d_all d_gop ops with
       | Some g, Some ops' =>
-          let fs := fs_of_tree (tree_of (g_files g)) in
+          let fs := fs_of (g_held g) in
           XL (map (fun o => match o with
                             | XReq r0 => let r := g_prime g r0 in
                                         XL [x_bool (permitted_b fs r);
